@@ -1116,6 +1116,13 @@ func (e *Entry) Augment(addErrors bool) (processed, skipped int) {
 			unapplied = append(unapplied, a)
 			continue
 		}
+		switch {
+		case target.Dir == nil, target.Kind == AnyXMLEntry, target.Kind == AnyDataEntry:
+			// The target exists but is not a node that can have children.
+			e.errorf("%s: augment %s: target cannot have children", Source(a.Node), a.Name)
+			processed++
+			continue
+		}
 		// Augments do not have a prefix we merge in, just a node.
 		// We retain the namespace from the original context of the
 		// augment since the nodes have this namespace even though they
